@@ -28,4 +28,14 @@ PROPS = {
         "assumptions": ["bound >= 0; GTID sets well-formed"],
         "theorem_status": {"C14_top_has_max_priority_and_most_transactions": "the 'then with less lag' tie-break among candidates with EQUAL sets is checked by the correspondence only (needs completeness of Equal; see DESIGN.md)", "others": "full"},
     },
+    "C08": {
+        "corr": ["Corr/C08.vo"],
+        "harness": [{"pkg": APP, "test": "TestVerifC08"}],
+        "trusted": ["fake MySQL servers (verifkit/fakemysql.go) and their reading of MySQL semantics (DESIGN.md App. C): SET read_only blocks while commits wait for a semi-sync ACK and fails with 1205 after lock_wait_timeout; a hung statement surfaces as context deadline; refused connection as transport error",
+                    "testing/synctest virtual time; in-memory dcs.DCS for IsConnected",
+                    "the kill loop of SetReadOnlyWithForce is modelled with a scheduling oracle (Peek) for its iteration count"],
+        "assumptions": ["cluster registry (HA hosts, local host) is what the process cached before losing the coordination service"],
+        "theorem_status": {"C08_never_unfences_never_touches_others": "full, for every response of every call (oracle semantics) and hence every crash prefix",
+                           "C08_fence_iff / postpone": "full for the decision function; the link 'observed responses -> decision inputs' is the model's read phase, tied to the code by K2 replay"},
+    },
 }
